@@ -7,6 +7,7 @@ import (
 	"fmt"
 	"slices"
 	"strconv"
+	"strings"
 	"testing"
 
 	"github.com/emirpasic/gods/v2/maps/linkedhashmap"
@@ -259,6 +260,46 @@ func checkK[K comparable](c Case, mk func(int) K, text func(K) string) (pbt.Info
 			} else {
 				s.Clear()
 			}
+		case "load":
+			// a state reached through FromJSON is a reachable state: the members of the
+			// document, in document order (first occurrence), become the content
+			for _, p := range model {
+				removedOnce[p.k] = true
+			}
+			model = nil
+			var sb strings.Builder
+			for j, x := range op.Ks {
+				k := mk(x)
+				if isMap && idx(k) >= 0 {
+					continue // no duplicate member names
+				}
+				put(k, 100+j)
+				if sb.Len() > 0 {
+					sb.WriteByte(',')
+				}
+				kj, _ := json.Marshal(k)
+				if isMap {
+					if _, isStr := any(k).(string); !isStr {
+						kj, _ = json.Marshal(string(kj))
+					}
+					fmt.Fprintf(&sb, "%s:%d", kj, 100+j)
+				} else {
+					sb.Write(kj)
+				}
+			}
+			var lerr error
+			if isMap {
+				lerr = m.FromJSON([]byte("{" + sb.String() + "}"))
+			} else {
+				for j := range model {
+					model[j].v = 0
+				}
+				lerr = s.FromJSON([]byte("[" + sb.String() + "]"))
+			}
+			if lerr != nil {
+				return info, fmt.Errorf("step %d: FromJSON(%s) failed: %v", i, sb.String(), lerr)
+			}
+			info.Label("load")
 		default:
 			return info, fmt.Errorf("bad op %q", op.O)
 		}
@@ -308,7 +349,9 @@ func gen(kind, keys string) func(t *rapid.T) Case {
 		}
 		v := 1
 		for i := 0; i < n; i++ {
-			switch dom.Weighted(t, "op", 1, 40, 15, 30, 1) {
+			switch dom.Weighted(t, "op", 1, 40, 15, 30, 1, 2) {
+			case 5:
+				c.Ops = append(c.Ops, Op{O: "load", Ks: rapid.SliceOfN(rapid.IntRange(0, hi), 0, 3*maxVar).Draw(t, "doc")})
 			case 0:
 			case 1:
 				c.Ops = append(c.Ops, Op{O: "put", K: rapid.IntRange(0, hi).Draw(t, "k"), V: v})
